@@ -14,7 +14,8 @@ RELATION_TAGS = ('inter', 'intra', 'other', 'name', 'description', 'container', 
 # the schema makes them optional, integers in another notation
 XML_EDITS = ['none', 'explicit-compress-false', 'explicit-merge-any', 'explicit-similar-empty', 'explicit-prefix-radix-10',
              'zero-pad-confidence', 'zero-pad-version', 'zero-pad-cnp', 'drop-similar', 'drop-merge', 'explicit-date-acquired',
-             'empty-attr-extension', 'zero-pad-prefix-radix', 'reorder-attributes', 'plus-version']
+             'empty-attr-extension', 'zero-pad-prefix-radix', 'reorder-attributes', 'plus-version', 'empty-predicate',
+             'empty-relation-description', 'empty-similar-explicit', 'empty-xref', 'empty-regex-soft']
 
 
 def local(tag):
@@ -74,6 +75,10 @@ def gen_ontology_spec(rng):
             G.mutate(rng, 'source', s)
         items.append(['source', s])
     et = G.base_eventtype()
+    if rng.random() < 0.6:
+        et['relations'] = [G.base_relation('p', 'q')]
+    if rng.random() < 0.4:
+        et['props'][0]['assocs'] = [G.base_assoc('c.a')]
     for _ in range(rng.randint(0, 8)):
         G.mutate(rng, 'eventtype', et)
     G.fix_relations(et)
@@ -150,6 +155,15 @@ def apply_xml_edit(rng, root, how):
     if how == 'empty-attr-extension':
         e = pick(['property-concept'], lambda e: e.get('attr-extension') is None)
         return e is not None and (e.set('attr-extension', '') or True)
+    if how in ('empty-predicate', 'empty-relation-description'):
+        e = pick(['inter', 'intra', 'other'], lambda e: e.getparent() is not None and local(e.getparent().tag) == 'relations')
+        return e is not None and (e.set('predicate' if how == 'empty-predicate' else 'description', '') or True)
+    if how == 'empty-similar-explicit':
+        e = pick(['property'])
+        return e is not None and (e.set('similar', '') or True)
+    if how in ('empty-xref', 'empty-regex-soft'):
+        e = pick(['object-type'])
+        return e is not None and (e.set('xref' if how == 'empty-xref' else 'regex-soft', '') or True)
     if how == 'reorder-attributes':
         e = pick(['object-type', 'property', 'event-type'])
         if e is None:
@@ -256,14 +270,18 @@ class C08(Property):
         els = {json.dumps(k): a for k, _t, a in elements_of(x2)}
         return {'skipped': False, 'parsed': 'ok', 'elements': els, 'second_identical': b2 == b3,
                 'schema_valid': bool(schema().validate(wrap(x2))),
-                'same_definitions': self.same_definitions(root, o2)}
+                'same_definitions': self.same_definitions(root, x2)}
 
     @staticmethod
-    def same_definitions(root, o2):
-        """Parse the input once more, independently, and compare every definition with ==."""
+    def same_definitions(root, x2):
+        """Parse the input and parse what was serialized from it; compare every definition with ==."""
         from edxml.ontology import Ontology
         import copy as _c
         o1 = Ontology.create_from_xml(_c.deepcopy(root))
+        try:
+            o2 = Ontology.create_from_xml(wrap(x2)[0])
+        except Exception as ex:
+            return 'unparsable output (%s)' % type(ex).__name__
         try:
             for name, ot in o1.get_object_types().items():
                 if not (o2.get_object_type(name) == ot):
